@@ -214,8 +214,31 @@ def out_has_def(out):
     return any(re.match(r"^\s*(?:cp?def|def)\s", l) for l in out)
 
 
+def cdef_blocks(src):
+    """`cdef:` followed by an indented block of declarations -> one
+    `cdef <decl>` line each (handled by the declaration rules)"""
+    out, block = [], None
+    for line in src.split("\n"):
+        ind = len(line) - len(line.lstrip())
+        if block is not None:
+            if line.strip() and ind <= block:
+                block = None
+            elif line.strip():
+                out.append(" " * (block) + "cdef " + line.strip())
+                continue
+            else:
+                out.append(line)
+                continue
+        if line.strip() == "cdef:":
+            block = ind
+            continue
+        out.append(line)
+    return "\n".join(out)
+
+
 def lower_source(src, typed=None):
     src = join_lines(src)
+    src = cdef_blocks(src)
     if typed:
         src = typed_bindings(src, typed)
     lines = []
